@@ -9,8 +9,8 @@
 //           thread, the interleaving of all atomic operations (and of the payload's move constructor
 //           when VF_MOVE_SP is set).
 // Payload: VF_PAYLOAD=0: int32 tag.  VF_PAYLOAD=1: lifetime-counted class `Payload` carrying the
-//          tag; with VF_MOVE_SP=1 its move constructor contains a scheduling point: a user type's
-//          move constructor is not one indivisible step (it may itself contain atomic operations,
+//          tag; with VF_MOVE_SP=1 its constructors contain a scheduling point: a user type's
+//          (move) constructor is not one indivisible step (it may itself contain atomic operations,
 //          e.g. reference counts), and the engine's interleaving granularity is the atomic
 //          operation.  The scheduling point is in the payload type (user code), not in dispenso.
 #include <dispenso/async_request.h>
@@ -28,12 +28,21 @@
 #ifndef VF_PRODUCERS
 #define VF_PRODUCERS 1
 #endif
+#ifndef VF_KINDS_IN_THREADS
+#define VF_KINDS_IN_THREADS 0
+#endif
 
 static int32_t g_live;  // live Payload objects (constructed and not yet destroyed)
 
 struct Payload {
   int32_t v;
-  explicit Payload(int32_t t) noexcept : v(t) { ++g_live; }
+  explicit Payload(int32_t t) noexcept : v(0) {
+    ++g_live;
+#if VF_MOVE_SP
+    vf_sched_point();  // construction is not one indivisible step either
+#endif
+    v = t;
+  }
   Payload(Payload&& o) noexcept : v(o.v) {
     ++g_live;
 #if VF_MOVE_SP
@@ -139,6 +148,10 @@ static void do_emplace(int32_t tag, bool guarded) {
 // native replay assigns every input to the same operation as the solver's model)
 static bool g_kind[4][2];
 static void consumer_ops(int k) {
+#if VF_KINDS_IN_THREADS  // reproducer for the replay input-order problem (tier 'repro'), not a check
+  g_kind[k][0] = vf_nondet_bool();
+  g_kind[k][1] = vf_nondet_bool();
+#endif
   if (g_kind[k][0]) do_request(); else do_get();
   if (g_kind[k][1]) do_request(); else do_get();
 }
